@@ -54,3 +54,62 @@ Check regen_needs_not_type_name.
 Check regen_needs_nodot.
 Check regen_needs_distinct.
 Check regen_needs_logical_valid.
+
+(** ** The TEXT layer (model/JsonRead.v: a reader for JSON text as serde_json accepts it -- whitespace, escapes incl. surrogate
+    pairs, UTF-8 validation, number grammar with tokens kept, depth limit 128; checked against serde_json on ~7600 random and mutated
+    texts by its author; proofs/JsonReadProofs.v, JsonReadSchema.v): reading back what the compact printer writes gives the
+    document, with ANY whitespace between tokens; so the text a built graph regenerates -- not only its document -- parses back to a
+    graph with the same canonical form, fingerprint and unfoldings. Hypotheses: names / symbols are valid UTF-8 (graph_utf8; shown
+    necessary) and the regenerated document stays within serde_json's recursion limit (doc_depth_ok; shown necessary) *)
+Require Import JsonRead JsonReadProofs JsonReadSchema.
+Theorem C09_regen_text_roundtrip :
+  forall (g : schema_mut) (fuel : nat),
+  SchemaJsonDefs.wf_graph g ->
+  graph_utf8 g ->
+  (SchemaJsonGuard.json_fuel g <= fuel)%nat ->
+  doc_depth_ok fuel g ->
+  exists (j : json) (g' : schema_mut),
+  schema_json fuel g = Ok (json_text j) /\
+  json_wf j = true /\
+  parse_schema_text (json_text j) = Ok g' /\
+  (forall w : list bytes, ws_ok w -> parse_schema_text (json_text_ws w j) = Ok g') /\
+  (forall (fuel' : nat) (t : bytes), canonical_form fuel' g = Ok t -> canonical_form fuel' g' = Ok t) /\
+  (forall (fuel' : nat) (t : bytes), fingerprint fuel' g = Ok t -> fingerprint fuel' g' = Ok t) /\
+  (forall n : nat, SchemaJsonDefs.unfold n g' 0 = SchemaJsonDefs.unfold n g 0).
+Proof. exact C09_regen_text. Qed.
+
+Theorem C09_regen_text_full_names_roundtrip :
+  forall (g : schema_mut) (fuel : nat) (text : bytes),
+  SchemaJsonDefs.wf_graph g ->
+  graph_full_utf8 g ->
+  (SchemaJsonGuard.json_fuel g <= fuel)%nat ->
+  doc_depth_ok fuel g ->
+  schema_json fuel g = Ok text ->
+  exists g' : schema_mut,
+  parse_schema_text text = Ok g' /\
+  (forall (fuel' : nat) (t : bytes), canonical_form fuel' g = Ok t -> canonical_form fuel' g' = Ok t) /\
+  (forall (fuel' : nat) (t : bytes), fingerprint fuel' g = Ok t -> fingerprint fuel' g' = Ok t).
+Proof. exact C09_regen_text_full_names. Qed.
+
+Theorem C09_text_whitespace_insensitive :
+  forall (w : list bytes) (j : json) (fuel : nat),
+  ws_ok w ->
+  json_wf j = true ->
+  (json_depth j < SERDE_JSON_DEPTH)%nat -> (length (json_text_ws w j) < fuel)%nat -> json_read fuel (json_text_ws w j) = Ok j.
+Proof. exact json_read_ws. Qed.
+
+Theorem C09_json_text_roundtrip :
+  forall (j : json) (fuel : nat),
+  json_wf j = true ->
+  (json_depth j < SERDE_JSON_DEPTH)%nat -> (length (json_text j) < fuel)%nat -> json_read fuel (json_text j) = Ok j.
+Proof. exact json_read_text. Qed.
+
+
+Check json_text_inj.
+Check depth_needed.
+Check utf8_needed.
+Check ex_graph_text_roundtrip.
+Check ex_reads.                 (* every escape kind, surrogate pairs, odd whitespace, duplicate keys, every number shape *)
+Check rej_lone_leading.
+Check rej_leading_zero.
+Check rej_depth.
